@@ -853,7 +853,9 @@ impl Gen {
                     l1.script_text()?;
                     l2.script_text()?;
                     let k = self.rng.below(m.cap.max(2));
-                    let (a, b) = match self.rng.below(4) {
+                    let (a, b) = match self.rng.below(5) {
+                        // names longer than a label, equal in their first eight characters
+                        4 => (format!("vertex_1{}", self.rng.below(5)), format!("vertex_1{}", 5 + self.rng.below(5))),
                         0 => (format!("ν{k}"), format!("ν{k}{}", self.rng.below(10))),
                         1 => (format!("ν{k}{}", self.rng.below(10)), format!("ν{k}")),
                         2 => ("a".to_string(), "ab".to_string()),
@@ -967,7 +969,20 @@ impl Gen {
                     // the same cheap call many times: round and not so round counts
                     let v = self.pick_present(m)?;
                     let times = *self.rng.pick(&[100_usize, 127, 128, 129, 255, 256, 257, 1_000, 1_024]);
-                    let kind = self.rng.below(5) as u8;
+                    let kind = self.rng.below(6) as u8;
+                    if kind == 5 {
+                        // put + first read in a row: prefer a grouped vertex whose group cannot die by it
+                        let good: Vec<usize> = m
+                            .present
+                            .iter()
+                            .filter(|(x, mv)| mv.group.is_some_and(|g| m.groups[&g].iter().any(|y| y != *x && m.present[y].unread)))
+                            .map(|(x, _)| *x)
+                            .collect();
+                        if !good.is_empty() {
+                            let v = *self.rng.pick(&good);
+                            return Some(Step::Repeat { i, kind, v: view.name(v), times });
+                        }
+                    }
                     return Some(Step::Repeat { i, kind, v: view.name(v), times });
                 }
                 if self.rng.chance(1, 4) && !m.adoptive {
